@@ -21,6 +21,7 @@ type c12LeanObs struct {
 	Find    []int    `json:"find"`
 	Mem     [][]int  `json:"mem"`
 	Stmts   []string `json:"stmts"`
+	Args    []int    `json:"args"`
 }
 
 func c12LeanInput(s c12Seq) map[string]interface{} {
@@ -73,10 +74,14 @@ func c12StmtName(k *c12Kind, m string) string {
 }
 
 // canonical text of one real observation / one model observation
-func c12RealLine(o c12Obs) string {
+func c12RealLine(op c12Op, o c12Obs) string {
 	find := append([]int{}, o.Find...)
 	sort.Ints(find)
-	return fmt.Sprintf("err=%v links=%v targets=%v count=%d find=%v mem=%v stmts=%v", o.Err != "", o.Links, o.Targets, o.Count, find, o.Mem, o.Stmts)
+	args := []int{}
+	if op.Op == "append" || op.Op == "replace" {
+		args = o.ArgIDs // keys of the caller's argument records after assign-back
+	}
+	return fmt.Sprintf("err=%v links=%v targets=%v count=%d find=%v mem=%v args=%v stmts=%v", o.Err != "", o.Links, o.Targets, o.Count, find, o.Mem, args, o.Stmts)
 }
 
 func c12LeanLine(k *c12Kind, o c12LeanObs) string {
@@ -100,7 +105,10 @@ func c12LeanLine(k *c12Kind, o c12LeanObs) string {
 	if o.Find == nil {
 		o.Find = []int{}
 	}
-	return fmt.Sprintf("err=%v links=%v targets=%v count=%d find=%v mem=%v stmts=%v", o.Err, o.Links, o.Targets, o.Count, o.Find, mem, st)
+	if o.Args == nil {
+		o.Args = []int{}
+	}
+	return fmt.Sprintf("err=%v links=%v targets=%v count=%d find=%v mem=%v args=%v stmts=%v", o.Err, o.Links, o.Targets, o.Count, o.Find, mem, o.Args, st)
 }
 
 func c12Branches(r *Result, s c12Seq) {
@@ -142,7 +150,7 @@ func c12Tie(r *Result, seqs []c12Seq, suite string) {
 				break
 			}
 			r.CorrCompared++
-			a, b := c12RealLine(real[step]), c12LeanLine(k, lean[step])
+			a, b := c12RealLine(s.Ops[step], real[step]), c12LeanLine(k, lean[step])
 			if a != b {
 				r.Violate(Violation{Kind: "correspondence", Suite: suite, Input: s, Observed: map[string]interface{}{"step": step, "real": a},
 					Expected: map[string]interface{}{"model": b}, Note: "real Association API vs Lean Gorm.Assoc.step (state after the step + statement kinds)"})
@@ -158,9 +166,9 @@ func c12Tie(r *Result, seqs []c12Seq, suite string) {
 
 func init() {
 	register("C12", func(r *Result, rng *rand.Rand, tier string) {
-		n := 700
+		n := 4000
 		if tier == "thorough" {
-			n = 40000
+			n = 100000
 		} else if tier == "search" {
 			n = 3000
 		}
